@@ -8,17 +8,12 @@ NOTE = ("Trusted base: Lean 4.33.0 kernel; axioms propext, Classical.choice, Quo
         "random + exhaustive cases with exact rational comparison) — that tie is testing, not proof. Labels are naturals, "
         "coefficients exact rationals; float rounding is outside.")
 
-CHECKS = {
- "C05": dict(
-   text="Lean theorems (unbounded: any expression tree, any number of terms/variables/degree): evaluation of every tree over "
-        "+,-,*,**,unary,/ (copying, reflected, in-place) on models of one family, raw dicts and numbers denotes the arithmetic "
-        "combination of the operand values at every boolean resp. spin assignment (tree_value); results are canonical — sorted "
-        "duplicate-free keys, distinct keys, no zero coefficient, <=2 labels for degree-2 types (tree_canonical); result type is "
-        "the model operand's (add_kind, mul_kind); the four value functions equal direct evaluation. Correspondence: ~2500 "
-        "(quick) trees incl. every (operator,left kind,right kind) triple compared exactly with the real qubovert objects, plus a "
-        "truth-table oracle on the real results (operands unchanged, result type, canonical keys).",
-   design="§4 C05", technique="Lean 4 proof (induction over term lists and expression trees) + model/implementation correspondence"),
-}
+def load_claims():
+    """one JSON file per claimed property in harness/claims/ : {text, design, technique[, note]}"""
+    d = os.path.join(ROOT, "harness", "claims")
+    return {f[:-5]: json.load(open(os.path.join(d, f))) for f in sorted(os.listdir(d)) if f.endswith(".json")}
+
+CHECKS = load_claims()
 
 NOT_YET = {
 }
